@@ -420,3 +420,133 @@ func vpRestart(maxN int) {
 
 func vpH_raw_Restart_2() { vpRestart(2) }
 func vpH_raw_Restart_3() { vpRestart(3) }
+
+// ---------------------------------------------------------------------------
+// Ready -> persist -> Advance (synchronous mode): C05-D2/D4, C08-A2, C09-S2
+// ---------------------------------------------------------------------------
+
+func vpReadyAdvance(role StateType) {
+	ro := vpRawOptsFor(role, false)
+	rn, nd := vpBuildRawNode(ro)
+	r := rn.raft
+	l := r.raftLog
+	u := &l.unstable
+	ms := nd.ms
+	rd := rn.Ready()
+	// the application persists the Ready (step 1 of the contract)
+	if rd.HardState != nil {
+		ms.SetHardState(rd.HardState)
+	}
+	if rd.Snapshot != nil {
+		ms.ApplySnapshot(rd.Snapshot)
+	}
+	ms.Append(rd.Entries)
+	pre := vpRecord(r)
+	hadSnap := u.snapshot != nil
+	snapIdx := pre.view.snapIdx
+	nCommitted := len(rd.CommittedEntries)
+	var lastHanded uint64
+	if nCommitted > 0 {
+		lastHanded = rd.CommittedEntries[nCommitted-1].GetIndex()
+	}
+	selfMatch := pre.match[1]
+	rn.Advance(rd)
+	vpObserve("advance", uint64(len(u.entries)), l.applied, l.applying, uint64(r.state))
+	vpAssert(len(rn.stepsOnAdvance) == 0, "D2/advance-consumes-all-steps")
+	if r.Term == pre.term {
+		// nothing intervened between Ready and Advance: everything handed out is stable now
+		vpAssert(vpAnd(u.offset == pre.view.last+1, u.offsetInProgress >= u.offset), "W5/advance-stabilises-the-handed-out-entries")
+	}
+	if hadSnap {
+		vpAssert(vpAnd(u.snapshot == nil, l.applied >= snapIdx), "S2/advance-completes-snapshot")
+	}
+	if nCommitted > 0 {
+		vpAssert(vpAnd(l.applied >= lastHanded, l.applying >= l.applied), "A2/advance-marks-batch-applied")
+	}
+	vpAssert(vpAnd(l.applied >= pre.view.applied, l.applying >= pre.view.applying, l.committed >= pre.committed), "A2/cursors-monotone")
+	// D4: the leader's own Match only rises through its persisted self-acknowledgement
+	if pre.state == StateLeader && r.state == StateLeader {
+		if pr := r.trk.Progress[r.id]; pr != nil {
+			vpAssert(pr.Match >= selfMatch, "D4/self-match-monotone")
+			vpAssert(pr.Match <= l.lastIndex(), "D4/self-match-within-log")
+		}
+	}
+	// the next batch abuts the previous one
+	rd2 := rn.Ready()
+	if nCommitted > 0 {
+		for i, e := range rd2.CommittedEntries {
+			vpAssert(e.GetIndex() == lastHanded+uint64(i)+1, "A2/consecutive-batches-abut")
+		}
+	}
+	ki := &vpConds{post: true}
+	vpInvInto(ki, r)
+	ki.assertEach("Inv/post")
+}
+
+// vpNewEntries lists log entries above idx (appended during Advance, e.g. auto-leave).
+func vpNewEntries(l *raftLog, idx uint64) []*pb.Entry {
+	var out []*pb.Entry
+	for _, e := range l.unstable.entries {
+		_ = e
+	}
+	return out
+}
+
+func vpH_raw_ReadyAdvance_F() { vpReadyAdvance(StateFollower) }
+func vpH_raw_ReadyAdvance_C() { vpReadyAdvance(StateCandidate) }
+func vpH_raw_ReadyAdvance_L() { vpReadyAdvance(StateLeader) }
+
+// ---------------------------------------------------------------------------
+// C02-E6: durable term before leading, asynchronous storage writes.
+// A follower campaigns; its Ready is taken but the append thread has not run;
+// two arbitrary vote responses are stepped.
+// ---------------------------------------------------------------------------
+
+func vpAsyncElection(async bool) {
+	ro := vpRawOptsFor(StateFollower, async)
+	ro.maxMsgs, ro.maxAfter = 0, 0
+	ro.o.unstSnap = false
+	ro.o.lu = 0
+	rn, nd := vpBuildRawNode(ro)
+	r := rn.raft
+	// everything is durable before the campaign starts
+	vpAssume(vpAnd(rn.prevHardSt.GetTerm() == r.Term, rn.prevHardSt.GetVote() == r.Vote, !r.preVote, r.raftLog.applied == r.raftLog.committed))
+	durableTerm := r.Term
+	_ = rn.Campaign()
+	rd := rn.Ready()
+	var sendable []*pb.Message
+	for _, m := range rd.Messages {
+		if m.GetType() == pb.MsgStorageAppend || m.GetType() == pb.MsgStorageApply {
+			continue
+		}
+		sendable = append(sendable, m)
+	}
+	if !async {
+		// synchronous contract: the application writes rd.HardState before it
+		// sends rd.Messages
+		if rd.HardState != nil {
+			nd.ms.SetHardState(rd.HardState)
+			durableTerm = rd.HardState.GetTerm()
+		}
+	}
+	// votes requested in messages that may leave before the write completes
+	for _, m := range sendable {
+		if m.GetType() == pb.MsgVote {
+			vpAssert(m.GetTerm() <= durableTerm, "E6/vote-request-leaves-only-after-term-is-durable")
+		}
+	}
+	// two responses arrive before the storage write completes
+	for i := 0; i < 2; i++ {
+		k := &vpConds{}
+		m := vpMessage(vpMsgOpts{typ: pb.MsgVoteResp}, k)
+		vpValidity(r, m, k)
+		k.add(m.GetFrom() != r.id)
+		k.assume()
+		_ = rn.Step(m)
+	}
+	vpObserve("e6", uint64(r.state), r.Term, durableTerm)
+	vpAssert(vpImplies(r.state == StateLeader, durableTerm == r.Term), "E6/leader-only-with-durable-term")
+}
+
+func vpH_raw_Election_async() { vpAsyncElection(true) }
+func vpH_raw_Election_sync()  { vpAsyncElection(false) }
